@@ -41,6 +41,7 @@ ASSUMPTIONS = ["each pressure-controlled node is controlled by exactly one PC br
                "(guarded by check_infeed_number in solve_temperature)",
                "scipy.sparse csr_matrix sums duplicate triplets"]
 TECHNIQUE = "affine slice-bound analysis with constant-propagated specialisation, role tables for Jacobian slots, kernel value numbering, namespace typing of pit subscripts"
+EXPLANATION += (' ' + '(R1.9) numpy hands out a copy for `pit[rows]` with an index array or a mask: every subscript store whose target is such a copy of a pit (in pipeflow.py, pf/ and component_models/, all functions in normal form) must be read afterwards (stored back, passed on or returned) -- a correction written into the copy only is lost and the balance columns keep their old entries.')
 
 def _K(ns, n):
     return ("k", "%s.%s" % (ns, n))
